@@ -5,7 +5,7 @@ Functions under contract (emd/sift.py):
                (purity of get_next_imf), the capped run and the uncapped run compute the same recursion: the capped result is a prefix.
   mask_sift  : the same peeling invariant with the masked extraction GM(residual, mask frequency of the layer, mask amplitude of the layer);
                ncols <= max_imfs and <= number of supplied mask frequencies.
-  ensemble_sift          : result shape [N x max_imfs] (members by contract of sift: exactly the capped number of columns).
+  ensemble_sift          : result shape [N x K], 1 <= K <= max_imfs (members by contract of sift: each between 1 and max_imfs columns, every index in bounds).
   complete_ensemble_sift : ncols <= max_imfs (loop invariant on the column count).
   sift_second_layer, mask_sift_second_layer : result shape [N x first-level IMFs x max_imfs].
 """
@@ -26,7 +26,7 @@ ASSUMPTIONS = C01.ASSUMPTIONS[:3] + [
     'ensemble members / second-level sifts are arbitrary arrays with the column count their own contract gives (modular)',
     '"finite for finite input" is checked by the bounded stand-in only',
 ]
-NOT_COVERED = ['finiteness of the outputs - bounded stand-in only', 'ensemble_sift with max_imfs=None when members return different numbers of IMFs - bounded stand-in (known to raise IndexError: reported there if it occurs)']
+NOT_COVERED = ['finiteness of the outputs - bounded stand-in only', 'ensemble_sift with max_imfs=None (cap taken from the first member): bounded stand-in']
 
 N = z3.Int('N')
 XV = z3.Const('Xv', V)
@@ -145,13 +145,19 @@ def units(tier):
 
     def call_ens(f, c, a, kw):
         def swn(X, noise_scaling=None, noise=None, noise_mode='single', sift_thresh=1e-8, max_imfs=None, job_ind=1, imf_opts=None, envelope_opts=None, extrema_opts=None):
-            fimf = core.C().fresh_fun('member', I, I, R)
-            return SArr((X.shape_e[0], lift(max_imfs)), lambda i, j: fimf(i, j), 'f')
+            # contract of a member sift (C03 `sift[peel,cap]`): [N x k] with 1 <= k <= max_imfs - each member its own k
+            c2 = core.C()
+            fimf = c2.fresh_fun('member', I, I, R)
+            km = c2.fresh('kmember', I)
+            c2.assume(z3.And(1 <= km, km <= lift(max_imfs)))
+            return SArr((X.shape_e[0], km), lambda i, j: fimf(i, j), 'f')
         f.__globals__['_sift_with_noise'] = swn
         f.__globals__['mp'] = MPShim
         return f(*a, **kw)
     U.append(Unit('ensemble_sift[shape]', SIFT, 'ensemble_sift', mk_ens,
-                  lambda c, a, kw, r: c.oblige('post:samples-by-max_imfs', z3.And(r.shape_e[0] == N, r.shape_e[1] == 4), 'post'), module=ES, inline=inl, wrap_call=call_ens))
+                  lambda c, a, kw, r: c.oblige('post:samples-by-at-most-max_imfs', z3.And(r.shape_e[0] == N, 1 <= r.shape_e[1], r.shape_e[1] <= 4), 'post'), module=ES, inline=inl, wrap_call=call_ens,
+                  loops={0: {'inv': [('shape', lambda e: and_(SBool(e.imfs.shape_e[0] == N), SBool(e.imfs.shape_e[1] == lift(e.nimfs)))),
+                                     ('ii', lambda e: and_(0 <= e.ii, e.ii <= e.nimfs))]}}))
 
     # ---- complete_ensemble_sift cap
     def mk_ce(c):
@@ -336,7 +342,7 @@ def refute(tier, seed, emit):
             emit.violation('kth-component-is-extraction-from-residual', w, msg)
         if emit.full:
             return
-    caps = [1, 2, 3] if tier == 'quick' else [1, 2, 3, 4, 6]
+    caps = [1, 2, 3, 6, 9] if tier == 'quick' else [1, 2, 3, 4, 6, 9, 12]      # (caps above the natural number of IMFs included)
     emit.scope('ensemble_sift, complete_ensemble_sift, sift_second_layer, mask_sift_second_layer x caps %s x %d signals: never more components than the cap, documented shape, finite' % (caps, min(nsig, 3)))
     for si in range(min(nsig, 3)):
         for v in ('ensemble_sift', 'complete_ensemble_sift', 'sift_second_layer', 'mask_sift_second_layer', 'mask_sift[explicit list]'):
